@@ -58,8 +58,8 @@ class SoftmaxLikelihood(Likelihood):
     def forward(self, function_samples: Tensor, *params: Any, **kwargs: Any) -> Categorical:
         num_data, num_features = function_samples.shape[-2:]
 
-        # Catch legacy mode (only when the documented num_data x num_features layout does not fit)
-        if num_data == self.num_features and num_features != self.num_features:
+        # Catch legacy mode
+        if num_data == self.num_features:
             warnings.warn(
                 "The input to SoftmaxLikelihood should be a MultitaskMultivariateNormal (num_data x num_tasks). "
                 "Batch MultivariateNormal inputs (num_tasks x num_data) will be deprectated.",
@@ -77,13 +77,6 @@ class SoftmaxLikelihood(Likelihood):
             mixed_fs = function_samples
         res = base_distributions.Categorical(logits=mixed_fs)
         return res
-
-    def _draw_likelihood_samples(self, function_dist: Distribution, *args: Any, **kwargs: Any) -> Distribution:
-        # expected_log_prob / log_marginal / marginal get here without passing through __call__:
-        # a (deprecated) batch MultivariateNormal is converted the same way, so that forward sees num_data x num_features
-        if not isinstance(function_dist, MultitaskMultivariateNormal):
-            function_dist = MultitaskMultivariateNormal.from_batch_mvn(function_dist)
-        return super()._draw_likelihood_samples(function_dist, *args, **kwargs)
 
     def __call__(self, input: Union[Tensor, MultitaskMultivariateNormal], *args: Any, **kwargs: Any) -> Distribution:
         if isinstance(input, Distribution) and not isinstance(input, MultitaskMultivariateNormal):
